@@ -121,7 +121,7 @@ int __wrap__Z17comm_udp_recvfromiPvmiRN2Ip7AddressE(int, void *buf, size_t len, 
     vfAfterRecv.assign(reinterpret_cast<char *>(b), len + 1);
     from = vfFrom;
     vfArena = b;
-    vfArenaSize = len + 1 + 64;                  // look a little beyond the buffer too (ASan's redzone reports those as well)
+    vfArenaSize = len + 1;                       // exactly the handler's buffer; what lies behind it is guarded by ASan's global redzone
     vfTrackReset(n);
     return static_cast<int>(n);
 }
@@ -154,7 +154,7 @@ void __wrap__Z18neighborsHtcpReplyPKhP13HtcpReplyDataRKN2Ip7AddressE(const cache
 }
 
 // libtool's table of preloaded modules (the squid link line has "-dlopen force")
-extern "C" { struct VfLtSym { const char *name; void *address; }; const VfLtSym lt__PROGRAM__LTX_preloaded_symbols[] = {{"@PROGRAM@", nullptr}, {nullptr, nullptr}}; }
+extern "C" { struct VfLtSym { const char *name; void *address; }; extern const VfLtSym lt__PROGRAM__LTX_preloaded_symbols[]; const VfLtSym lt__PROGRAM__LTX_preloaded_symbols[] = {{"@PROGRAM@", nullptr}, {nullptr, nullptr}}; }
 
 // ---------------------------------------------------------------------------------------------- ICP
 static std::string contains(const std::string &s, const char *needle) { return s.find(needle) != std::string::npos ? s : std::string(); }
@@ -172,16 +172,16 @@ static std::string icpLine(const std::string &dg, const std::string &stale)
     snprintf(t, sizeof(t), "v=%u", dg.size() > 1 ? static_cast<unsigned>(static_cast<unsigned char>(dg[1])) : 0u);
     out = t;
     std::string extras;
+    bool badUrl = false;
     for (const auto &m : vfDbgLog) {
         if (m.section != 12) continue;
         const std::string &x = m.text;
         if (!contains(x, "Ignoring too-small UDP packet").empty()) out += " ignore:short";
         else if (!contains(x, "Unused ICP version").empty()) out += " ignore:version";
         else if (!contains(x, "ICP message is too small").empty()) out += " badlen";
-        else if (x.compare(0, 7, "OPCODE ") == 0) out += " op:" + x.substr(7, x.find('=') == std::string::npos ? std::string::npos : x.find('=') - 7);
-        else if (!contains(x, "too small packet from").empty()) out += " url:small";
-        else if (!contains(x, "unterminated URL").empty()) out += " url:unterminated";
-        else if (!contains(x, "URL with an embedded NUL").empty()) out += " url:embedded";
+        else if (!contains(x, "too small packet from").empty()) { out += " url:small"; badUrl = true; }
+        else if (!contains(x, "unterminated URL").empty()) { out += " url:unterminated"; badUrl = true; }
+        else if (!contains(x, "URL with an embedded NUL").empty()) { out += " url:embedded"; badUrl = true; }
         else if (!contains(x, "Unknown opcode").empty()) out += " unknown-op";
         else if (x.compare(0, 16, "icpHandleIcpV2: ") == 0 && x.find(" for '") != std::string::npos) {
             const auto a = x.find(" for '") + 6;
@@ -197,8 +197,10 @@ static std::string icpLine(const std::string &dg, const std::string &stale)
         const auto z = url.find('\0');
         if (z != std::string::npos) url.resize(z);
         snprintf(t, sizeof(t), " sent=%u/%zu/", b.empty() ? 0u : static_cast<unsigned>(static_cast<unsigned char>(b[0])), b.size());
-        // the reply to a query whose URL field is unusable is fully determined by the datagram; everything else depends on URL parsing / ACLs
-        if (!b.empty() && b[0] == ICP_ERR && url.empty()) out += t + vfHex(url);
+        // the reply to a query whose URL field is unusable is fully determined by the datagram; so is the URL echoed by a
+        // DENIED reply (no icp_access rule here); an ERR reply depends on URL parsing and carries an escaped URL
+        if (badUrl) out += t + vfHex(url);
+        else if (!b.empty() && b[0] == ICP_DENIED) { out += " url=" + vfHex(url); extras += t + vfHex(url); }
         else extras += t + vfHex(url);
     }
     for (const auto &n : vfNotes) extras += " " + n;
